@@ -13,6 +13,8 @@ package main
 //                 vs the Lean models, oracle Closed after every step
 //   c05-filter    FilterSchemas with random allowed objects vs the Lean model (`filter`), vs
 //                 `reach` (both sides), oracle: kept = reach, result Closed
+//   c05-parseopts the front-ends driven through codegen.Input with every loader option of the input
+//                 structs, crossed with input shapes (c05_popt.go) → oracle Closed, entry point included
 //   c05-eval      evaluate case lines from a file (replays, witnesses, pinned findings)
 //   c05-shrink    shrink one failing case while its failure class persists
 
@@ -74,6 +76,8 @@ type c05Case struct {
 	pkg     string
 	allowed []string
 	src     string // c05parse: schema text; c05load: path relative to the repository root
+	files   []c05PFile  // c05popt: the files of the case (c05_popt.go)
+	inputs  []c05PInput // c05popt: the inputs, with their loader options
 }
 
 func c05AddrList(as []c05Addr) string {
@@ -98,6 +102,8 @@ func (c *c05Case) text() string {
 		return "c05chain " + c.lang + " " + virSchemas(c.ss)
 	case "c05parse", "c05load":
 		return c.verb + " " + c.format + " " + virQuote(c.pkg) + " " + c05StrList(c.allowed) + " " + virQuote(c.src)
+	case "c05popt":
+		return c05PText(c)
 	}
 	return "unknown"
 }
@@ -162,6 +168,8 @@ func c05ParseCase(line string) (*c05Case, error) {
 		}
 		c.src = d.str(xs[2])
 		return c, d.err
+	case "c05popt":
+		return c, c05PParse(c, rest)
 	}
 	return nil, fmt.Errorf("unknown verb %q", verb)
 }
@@ -396,6 +404,8 @@ func c05Eval(c *c05Case) (req, impl, verdict string) {
 			}
 		}
 		return "closed " + virSchemas(run.out), c05ClosedReply(run.out), verdict
+	case "c05popt":
+		return c05PEval(c)
 	}
 	return "-", "unknown-verb", "FAIL unknown verb"
 }
